@@ -2,11 +2,18 @@
 mod c01;
 mod c02;
 mod c03;
+mod c04;
+mod c05;
+mod c08;
 mod c09;
+mod c10;
 mod c15;
 mod common;
 mod e1;
+mod e2;
+mod e3;
 mod model;
+mod oracle;
 
 use common::*;
 use std::time::Instant;
@@ -17,12 +24,17 @@ fn usage() -> ! {
 }
 
 macro_rules! dispatch {
-    ($id:expr, $f:ident ( $($a:expr),* )) => {
+    ($id:expr, $f:ident, $f06:ident ( $($a:expr),* )) => {
         match $id {
+            "C06" => c05::$f06($($a),*),
             "C01" => c01::$f($($a),*),
             "C02" => c02::$f($($a),*),
             "C03" => c03::$f($($a),*),
+            "C04" => c04::$f($($a),*),
+            "C05" => c05::$f($($a),*),
+            "C08" => c08::$f($($a),*),
             "C09" => c09::$f($($a),*),
+            "C10" => c10::$f($($a),*),
             "C15" => c15::$f($($a),*),
             _ => { eprintln!("unknown property {}", $id); std::process::exit(2) }
         }
@@ -72,7 +84,7 @@ fn main() {
             }
             let start = Instant::now();
             let rec = Recorder::new(id, &known);
-            let out: RunOutput = dispatch!(id, run(&tier, &rec));
+            let out: RunOutput = dispatch!(id, run, run_c06(&tier, &rec));
             let code = finalize(id, &tier, seed, &rec, out, start);
             std::process::exit(code);
         }
@@ -85,7 +97,7 @@ fn main() {
             let case = v["case"].as_str().expect("case").to_string();
             println!("replaying {id} case {case}");
             let rec = Recorder::new(id, &[]);
-            let reproduced: bool = dispatch!(id, replay(&case, &rec));
+            let reproduced: bool = dispatch!(id, replay, replay_c06(&case, &rec));
             rec.dump();
             println!("reproduced={reproduced}");
             std::process::exit(if reproduced { 1 } else { 0 });
